@@ -19,7 +19,7 @@ MINYEAR = _real.MINYEAR
 MAXYEAR = _real.MAXYEAR
 UTC = getattr(_real, 'UTC', _real.timezone.utc)
 
-_STATE = {'now': None, 'reads': 0}
+_STATE = {'now': None, 'reads': 0, 'tick': 0.0}
 
 
 class datetime(_real.datetime):
@@ -29,6 +29,9 @@ class datetime(_real.datetime):
         if t is None:
             return _real.datetime.now(tz)
         _STATE['reads'] += 1
+        if _STATE['tick']:
+            # a clock that keeps running: every look at it is a little later than the one before
+            _STATE['now'] = t + _real.timedelta(seconds=_STATE['tick'])
         return cls(t.year, t.month, t.day, t.hour, t.minute, t.second, t.microsecond)
 
     @classmethod
@@ -43,6 +46,10 @@ class datetime(_real.datetime):
 def set_now(t):
     """t: a real datetime.datetime (naive) or None to fall back to the real clock."""
     _STATE['now'] = t
+
+
+def set_tick(seconds):
+    _STATE['tick'] = float(seconds)
 
 
 def get_now():
@@ -71,4 +78,5 @@ class installed:
     def __exit__(self, *exc):
         self.target.datetime = self.orig
         set_now(None)
+        set_tick(0)
         return False
